@@ -207,7 +207,7 @@ def gen_def(rng, depth=3):
 
 def gen_morph(rng, bad=0.1):
     k = rng.choice(["letterset", "wildcard"])
-    units = MORPH_CHARS + (MORPH_BAD if rng.random() < bad else [])
+    units = MORPH_CHARS + (MORPH_BAD if rng.random() < 3 * bad else [])
     chars = pick_units(rng, units, [1, 1, 2, 3, 5])
     var = ("!" if k == "letterset" else "?") + rng.choice(["a", "b", "v", "1", "!", "?", "é"])
     return {"k": k, "var": cps(var), "chars": cps(chars)}
@@ -513,8 +513,6 @@ def naive_lines(d):
     ind = [len(l) - len(l.lstrip(" ")) for l in L if l != ""]
     m = min(ind) if ind else 0
     L = [l[m:] for l in L]
-    if L and L[-1] == "":
-        L.pop()
     if L and L[0] == "":
         L = L[1:]
     if L and L[-1] == "":
@@ -643,30 +641,13 @@ def rand_case(rng_seed, s):
 
 # --------------------------------------------------------------------------- neutralising known classes
 
-def strip_hidden_docs(j, feature=False):
-    """spec without docstrings on AVMs that are direct feature values"""
-    j = dict(j)
-    k = j["k"]
-    if k == "conj":
-        j["t"] = [strip_hidden_docs(t) for t in j["t"]]
-    elif k == "avm":
-        if feature:
-            j["d"] = None
-        j["f"] = [[p, strip_hidden_docs(v, True)] for p, v in j["f"]]
-    elif k in ("cons", "diff"):
-        j["v"] = [strip_hidden_docs(v) for v in j["v"]]
-        if k == "cons" and isinstance(j["e"], dict):
-            j["e"] = strip_hidden_docs(j["e"])
-    return j
-
-
 def unwrap_unit_conj(j, feature=False, end=False):
     """spec without one-term Conjunction objects around an AVM in feature-value position or around
     a list-type name at the end of a dotted list"""
     j = dict(j)
     k = j["k"]
     if k == "conj":
-        if feature and len(j["t"]) == 1 and j["t"][0]["k"] == "avm":
+        if feature and len(j["t"]) == 1 and j["t"][0]["k"] == "avm" and j["t"][0].get("d") is None:
             return unwrap_unit_conj(j["t"][0], True)
         if end and len(j["t"]) == 1 and j["t"][0]["k"] in ("id", "str", "re") \
                 and uncps(j["t"][0]["s"]).lower() in ("*list*", "*null*"):
@@ -696,42 +677,6 @@ def map_items(case, f_term=None, f_item=None):
     return c
 
 
-BLANK_DOC = re.compile(r"^ *\n *$")
-
-
-def trailing_blank(d):
-    """the documentation text still ends with a blank line after the one blank last line is dropped"""
-    L = naive_lines(d)
-    return bool(L) and L[-1] == ""
-
-
-def fix_docs(j, pred, repl):
-    if isinstance(j, dict):
-        return {k_: (cps(repl(uncps(v))) if k_ == "d" and v is not None and "k" in j and pred(uncps(v))
-                     else fix_docs(v, pred, repl)) for k_, v in j.items()}
-    if isinstance(j, list):
-        return [fix_docs(v, pred, repl) for v in j]
-    return j
-
-
-def rstrip_blank_lines(d):
-    L = naive_lines(d)
-    while L and L[-1] == "":
-        L.pop()
-    return "\n".join(L) if L else "x"
-
-
-def all_docs(j):
-    if isinstance(j, dict):
-        if j.get("d") is not None and "k" in j:
-            yield uncps(j["d"])
-        for v in j.values():
-            yield from all_docs(v)
-    elif isinstance(j, list):
-        for v in j:
-            yield from all_docs(v)
-
-
 def obj_has(o, pred):
     """walk a real term/value"""
     if isinstance(o, tdl.Conjunction):
@@ -745,17 +690,6 @@ def obj_has(o, pred):
     if isinstance(o, tdl.AVM):
         return any(obj_has(o._avm[k], pred) for k in (o._avm or {}))
     return False
-
-
-def has_hidden_doc(o):
-    def pred(t):
-        if type(t) in (tdl.AVM, tdl._ImplicitAVM):
-            for k in t._avm:
-                v = t._avm[k]
-                if type(v) in (tdl.AVM, tdl._ImplicitAVM) and len(v._avm) == 1 and v.docstring is not None:
-                    return True
-        return False
-    return obj_has(o, pred)
 
 
 def is_list_type_term(t):
@@ -774,7 +708,8 @@ def has_triv_conj(o):
             for k in t._avm:
                 v = t._avm[k]
                 if (isinstance(v, tdl.Conjunction) and len(v.terms) == 1
-                        and type(v.terms[0]) is tdl.AVM and len(v.terms[0]._avm) == 1):
+                        and type(v.terms[0]) is tdl.AVM and len(v.terms[0]._avm) == 1
+                        and v.terms[0].docstring is None):
                     return True
         return False
     return obj_has(o, pred)
@@ -1244,84 +1179,26 @@ class C15(Check):
 
     # ---- known findings
     def classify(self, case, failure):
-        """A failure is attributed to a known finding only if the case shows that finding's specific
-        feature AND the failure disappears when exactly the known features are neutralised; the finding
-        named is one whose feature alone keeps the failure alive."""
-        clause = failure["clause"]
-        if case.get("kind") == "doc":
-            d = uncps(case["doc"])
-            if clause == "format raises on a TDL entity" and BLANK_DOC.match(d):
-                return "F42"
-            if clause in ("formatted docstring does not hold the documentation text",
-                          "formatting a read docstring again changes it") and trailing_blank(d):
-                c2 = dict(case)
-                c2["doc"] = cps(rstrip_blank_lines(d))
-                r2 = self.impl(c2)
-                if not any(f["clause"] == clause for f in self.oracle(c2, r2)):
-                    return "F46"
-            return None
+        """F44 only: the case holds a one-term Conjunction around a one-feature AVM without docstring in
+        feature-value position (or around a list-type name as the end of a dotted list) AND the failure
+        disappears when exactly those Conjunction wrappers are removed."""
         if case.get("kind") != "items":
             return None
+        clause = failure["clause"]
         try:
             with warnings.catch_warnings():
                 warnings.simplefilter("ignore")
                 objs = [o for o in self.flat_objs(b_tree(case["items"])) if isinstance(o, tdl.TypeDefinition)]
         except EXC:
             return None
-
-        try:
-            with warnings.catch_warnings():
-                warnings.simplefilter("ignore")
-                objs_unwrapped = [o for o in self.flat_objs(b_tree(map_items(case, f_term=unwrap_unit_conj)["items"]))
-                                  if isinstance(o, tdl.TypeDefinition)]
-        except EXC:
-            objs_unwrapped = []
-
-        def bad_morph(it):
-            return it["k"] in ("letterset", "wildcard") and any(c in uncps(it["chars"]) for c in ") \\")
-
-        def fix_morph(it):
-            if bad_morph(it):
-                it = dict(it)
-                it["chars"] = cps(re.sub(r"[) \\]", "x", uncps(it["chars"])))
-            return it
-        classes = [
-            ("F41", lambda: any(it.get("t") == [] for it in case["items"]),
-             lambda c: map_items(c, f_item=lambda it: None if it.get("t") == [] else it)),
-            ("F42", lambda: any(BLANK_DOC.match(d) for d in all_docs(case["items"])),
-             lambda c: {"kind": "items", "items": fix_docs(c["items"], lambda d: bool(BLANK_DOC.match(d)), lambda d: "x")}),
-            ("F43", lambda: any(has_hidden_doc(o.conjunction) for o in objs + objs_unwrapped),
-             lambda c: map_items(c, f_term=strip_hidden_docs)),
-            ("F44", lambda: any(has_triv_conj(o.conjunction) for o in objs),
-             lambda c: map_items(c, f_term=unwrap_unit_conj)),
-            ("F45", lambda: any(bad_morph(it) for it in case["items"]),
-             lambda c: map_items(c, f_item=fix_morph)),
-            ("F46", lambda: any(trailing_blank(d) for d in all_docs(case["items"])),
-             lambda c: {"kind": "items", "items": fix_docs(c["items"], trailing_blank, rstrip_blank_lines)}),
-        ]
-        present = [(fid, fix) for fid, has, fix in classes if has()]
-        present.sort(key=lambda x: 0 if x[0] == "F44" else 1)    # unwrap before stripping what it exposes
-        if not present:
+        if not any(has_triv_conj(o.conjunction) for o in objs):
             return None
-
-        def still(c2):
-            if not c2["items"]:
-                return False
-            r, aux = self.run_items(c2)
-            self._aux = (id(c2), aux)
-            return any(f["clause"] == clause for f in self.oracle(c2, r))
-
-        def neutralise(fixes):
-            c2 = case
-            for fix in fixes:
-                c2 = fix(c2)
-            return c2
-        if still(neutralise([fix for _, fix in present])):
+        c2 = map_items(case, f_term=unwrap_unit_conj)
+        r, aux = self.run_items(c2)
+        self._aux = (id(c2), aux)
+        if any(f["clause"] == clause for f in self.oracle(c2, r)):
             return None
-        for fid, _ in present:
-            if still(neutralise([fix for f2, fix in present if f2 != fid])):
-                return fid
-        return present[0][0]
+        return "F44"
 
     # ---- evidence
     def nontrivial_key(self, case, res):
